@@ -32,26 +32,28 @@ func GenDefs(r *hx.Rng, p Profile) ([]ChunkDef, map[int]bool) {
 	never := map[int]bool{}
 	var defs []ChunkDef
 	for id := 1; id <= n; id++ {
-		if r.Chance(1, 9) {
+		if r.Chance(1, 9) && !(p.RefsRich && r.Bool()) {
 			never[id] = true
 			continue
 		}
 		d := ChunkDef{ID: id, Size: r.Range(12, 44), Honor: r.Bool()}
 		nrefs := 0
 		if p.RefsRich {
-			nrefs = hx.Pick(r, []int{0, 0, 1, 1, 2, 3})
+			nrefs = hx.Pick(r, []int{0, 1, 1, 1, 2, 2, 3})
 		} else if r.Chance(1, 4) {
 			nrefs = 1
 		}
 		for j := 0; j < nrefs; j++ {
 			var t int
 			switch {
-			case p.RefsRich && r.Chance(1, 3):
+			case p.RefsRich && r.Chance(1, 12):
 				t = r.Range(1, n) // any: later-written, never-written, self
+			case id > 2 && p.RefsRich && r.Chance(3, 5):
+				t = id - r.Range(1, 2) // the chunks written just before: deep closures
 			case id > 1:
 				t = r.Range(1, id-1) // earlier ids: usually written before
 			default:
-				t = r.Range(1, n)
+				continue // the first chunk is a leaf
 			}
 			d.Refs = append(d.Refs, t)
 		}
@@ -204,8 +206,7 @@ func (g *Gen) Step() {
 		h := hx.Pick(r, hs)
 		switch x := r.Intn(100); {
 		case x < 36:
-			ids := g.defined()
-			op = Op{Kind: "put", H: h, A: hx.Pick(r, ids)}
+			op = Op{Kind: "put", H: h, A: g.pickPut(h)}
 		case x < 66:
 			last := g.pickLast(h)
 			op = Op{Kind: "commit", H: h, Cur: g.pickCur(h, last), Last: last}
@@ -252,6 +253,23 @@ func (g *Gen) Step() {
 	w.Do(&op)
 	g.after(&op)
 	w.Case.Ops = append(w.Case.Ops, op)
+}
+
+// pickPut: mostly children before parents (the smallest id this handle has not put yet), sometimes any id
+func (g *Gen) pickPut(h int) int {
+	ids := g.defined()
+	if g.R.Chance(9, 10) {
+		done := map[int]bool{}
+		for _, id := range g.PutOn[h] {
+			done[id] = true
+		}
+		for _, id := range ids {
+			if !done[id] {
+				return id
+			}
+		}
+	}
+	return hx.Pick(g.R, ids)
 }
 
 func (g *Gen) randTable() []int {
